@@ -25,6 +25,17 @@ pub struct KeyCfg {
     pub supported_hiding: usize,
     /// enforced degree bounds exactly as the prover spells them (unsorted, duplicated, empty, None)
     pub bounds: Option<Vec<usize>>,
+    /// linear-code tuning knobs: parameters built through the public constructors instead of
+    /// `setup`'s defaults (None = the defaults)
+    #[serde(default)]
+    pub lincode: Option<LcKnobs>,
+}
+
+#[derive(Serialize, Deserialize, Clone, Debug, PartialEq)]
+pub struct LcKnobs {
+    pub check_well_formedness: bool,
+    pub sec_param: usize,
+    pub rho_inv: usize,
 }
 
 #[derive(Serialize, Deserialize, Clone, Debug, PartialEq)]
